@@ -16,6 +16,8 @@ Oracle   parse returns or raises one of the four UBX* error classes; every
 
 import traceback
 
+import os
+
 from hypothesis import strategies as st
 
 from vp import core
@@ -47,7 +49,7 @@ INSPECT = ("str", "repr", "identity", "length", "payload", "msgmode", "serialize
 
 def floors(tier):
     return {"parse:len!=conforming": 5000, "parse:accepted": 3000, "parse:rejected": 2000,
-            "stream": 2500, "stream:qe=2": 500, "stream:has-rejected": 500, "bytes": 500}
+            "stream": 2500, "socket": 400, "parse:prefix": 5000, "stream:qe=2": 500, "stream:has-rejected": 500, "bytes": 500}
 
 
 def plan(tier, seed):
@@ -55,7 +57,9 @@ def plan(tier, seed):
     idx = list(range(len(targets)))
     specs = [{"what": "lengths", "targets": p} for p in C.split_round_robin(idx, 24)]
     specs += [{"what": "streams", "part": i} for i in range(12)]
-    specs += [{"what": "bytes"}]
+    specs += [{"what": "bytes"}, {"what": "sockets", "part": 0}, {"what": "sockets", "part": 1}]
+    if tier == "thorough":
+        specs += [{"what": "atheris", "part": i, "corpus": "valid" if i % 4 else "empty"} for i in range(16)]
     return specs
 
 
@@ -151,11 +155,57 @@ def check(case) -> core.Out:
                 if kk not in seen:
                     seen.add(kk)
                     viol.append((kk, d))
-        out = core.Out(viol=viol, classes=[f"mode={C.MODES[mode]}"], counts=counts, n=len(lens),
+        # every short prefix (and the last bytes cut off) of the conforming frame,
+        # handed to parse as it is - with and without validation, in the given
+        # mode and in SETPOLL
+        full = codec.ubx_frame(clsid[0:1], clsid[1:2], payload)
+        npre = 0
+        for k in sorted(set(range(0, min(len(full), 14))) | {len(full) - 1, len(full) - 2, len(full) - 3}):
+            if k < 0:
+                continue
+            for md in (mode, 3):
+                for val in (1, 0):
+                    o, v = judge_parse(full[:k], md, val, bf)
+                    npre += 1
+                    counts[f"parse:{o}"] += 1
+                    for kk, d in v:
+                        if kk not in seen:
+                            seen.add(kk)
+                            viol.append((kk, d))
+        counts["parse:prefix"] = npre
+        out = core.Out(viol=viol, classes=[f"mode={C.MODES[mode]}"], counts=counts, n=len(lens) + npre,
                        nt=sum(1 for n in lens if n != L), dig=core.digest((clsid, payload, mode, validate, bf)))
         out.nontrivial = True
         out.sample = {"clsid": clsid, "definition": case.get("defname"), "conforming_len": L,
                       "lengths_tried": len(lens), "mode": C.MODES[mode]}
+        return out
+    if k == "socket":
+        data = bytes(case["data"])
+        opts = dict(case["opts"])
+        sock = S.ScriptedSocket(data, case["chunks"], case["end"])
+        viol = []
+        import logging
+
+        logging.disable(logging.CRITICAL)
+        try:
+            try:
+                items, exc = S.read_all(sock, dict(opts, bufsize=case["bufsize"]),
+                                        (lambda e: None) if opts.get("quitonerror") == 1 else None,
+                                        limit=4 * len(data) + 50)
+                if exc is not None and not (opts.get("quitonerror") == 2 and S.is_protocol_error(exc)):
+                    viol.append((f"{PROP}|read|{type(exc).__name__}|{where(exc)}",
+                                 f"read() over a socket raised {exc!r} ({S.opts_label(opts)}) data {data[:40].hex()}"))
+            except S.HarnessHang as err:
+                viol.append((f"{PROP}|socket-hang", f"reader over a socket did not terminate ({err}); data "
+                                                    f"{data[:40].hex()} chunks {case['chunks'][:8]} end {case['end']} "
+                                                    f"bufsize {case['bufsize']}"))
+        finally:
+            logging.disable(logging.NOTSET)
+            sock.close()
+        out = core.Out(viol=viol, classes=["socket", f"end={case['end']}"],
+                       dig=core.digest((data, case["chunks"], case["end"], case["bufsize"], sorted(opts.items()))))
+        out.nontrivial = True
+        out.sample = {"data": data[:40], "chunks": case["chunks"][:8], "end": case["end"], "opts": opts}
         return out
     if k == "stream":
         data = bytes(case["data"])
@@ -185,6 +235,9 @@ SOPTS = st.fixed_dictionaries({
 def run_shard(spec, ctx, acc):
     known = set(ctx["known"])
     tier = ctx["tier"]
+    if spec["what"] == "atheris":
+        run_atheris(spec, ctx, acc)
+        return
     if spec["what"] == "lengths":
         targets = C.cat()[0]
         for ti in spec["targets"]:
@@ -229,6 +282,22 @@ def run_shard(spec, ctx, acc):
         core.hyp_search(acc, strat, check, seed=core.derive(ctx["seed"], PROP, "s", spec["part"]),
                         max_examples=350 if tier == "quick" else 9000, known=known, rounds=4)
         return
+    if spec["what"] == "sockets":
+        @st.composite
+        def sk(draw):
+            items = draw(st.one_of(streams.clean_streams(1, 4), streams.garbage_streams(5)))
+            data = streams.stream_bytes(items)
+            if data and draw(st.booleans()):
+                data = data[:draw(st.integers(0, len(data)))]  # the peer goes away mid-frame
+            n = len(data)
+            chunks = draw(st.lists(st.integers(1, max(1, n)), max_size=12))
+            o = draw(SOPTS)
+            return {"kind": "socket", "data": data, "chunks": chunks, "end": draw(st.sampled_from(["close", "timeout", "oserror"])),
+                    "bufsize": draw(st.sampled_from([1, 4, 16, 4096])), "opts": {k_: v for k_, v in o.items() if k_ != "handler"}}
+
+        core.hyp_search(acc, sk(), check, seed=core.derive(ctx["seed"], PROP, "sock", spec["part"]),
+                        max_examples=300 if tier == "quick" else 6000, known=known, rounds=3)
+        return
     # arbitrary byte strings handed to parse
     strat = st.tuples(
         st.one_of(st.binary(max_size=60), st.binary(max_size=40).map(lambda b: b"\xb5\x62" + b),
@@ -245,3 +314,32 @@ def run_shard(spec, ctx, acc):
             case = {"kind": "frame", "frame": b"\xb5\x62\x01\x07" + bytes(n - 4), "mode": 0,
                     "validate": validate, "bf": 1}
             core.handle(acc, check(case), case, known)
+
+
+def run_atheris(spec, ctx, acc):
+    """Coverage-guided campaign (thorough tier): the oracle of this module runs
+    inside the fuzz target; each new violation key is saved with its input."""
+    from vp.fuzz import driver
+
+    try:
+        core.ensure_deps(("atheris",))
+    except core.HarnessError as err:
+        acc.errors.append(f"atheris unavailable: {err}")
+        return
+    runs = int(os.environ.get("VP_FUZZ_RUNS", "200000"))
+    stats, viols, err, ncorpus = driver.run_campaign(
+        PROP, f"shard{spec['part']}", core.derive(ctx["seed"], PROP, "atheris", spec["part"]), runs,
+        spec["corpus"], set(ctx["known"]))
+    if err:
+        acc.errors.append(err)
+    n = stats.get("runs", 0)
+    acc.evaluations += n
+    acc.nontrivial_extra += stats.get("nontrivial", 0)  # coverage-guided inputs; duplicates possible
+    acc.classes["atheris-runs"] += n
+    acc.classes[f"atheris-corpus={spec['corpus']}"] += n
+    acc.extra.setdefault("atheris", {})[f"shard{spec['part']}"] = dict(stats, corpus=spec["corpus"], final_corpus=ncorpus)
+    if stats.get("known_hits"):
+        acc.known_hits["(atheris) listed findings"] += stats["known_hits"]
+    for v in viols:
+        if not any(x["key"] == v["key"] for x in acc.violations):
+            acc.violations.append({"key": v["key"], "case": v["case"], "detail": v["detail"]})
